@@ -247,8 +247,9 @@ Section Packer.
     pack_block cfg pv parent po now st0 txs vote sr = Some (b, stp, rcs) ->
     (* the total score grows and does not wrap *)
     h_total_score parent < h_total_score (b_header b) ->
-    (* PoS: the staker sanity check holds on the packer's final state (C16 custody) *)
-    (pv_pos pv = true -> forall st, sanity st = true) ->
+    (* PoS: the staker sanity check (the validator runs it, the packer does not) holds on the packer's state before the
+       reward hook, i.e. on every state the reward hook maps to the packer's final state (C16 custody) *)
+    (pv_pos pv = true -> forall ctx stf, rewards ctx stf = Some stp -> sanity stf = true) ->
     (* the validator's clock has reached the block (one interval of tolerance) *)
     h_time (b_header b) <= vnow + c_interval cfg ->
     process cfg pv parent st0 b vnow = Accepted State stp rcs.
@@ -310,7 +311,7 @@ Section Packer.
       by (unfold ctx_of_header; cbn; try rewrite C1; reflexivity); rewrite Hc end.
     rewrite Hver; unfold receipts_root_ok; cbn [b_header h_gas_used h_receipts_root h_state_root]; rewrite !N.eqb_refl; cbn [negb orb].
     destruct (pv_pos pv) eqn:Epos.
-    - rewrite (Hsan eq_refl stf); cbn [negb]. rewrite Erw. rewrite N.eqb_refl. reflexivity.
+    - rewrite (Hsan eq_refl ctx stf Erw); cbn [negb]. rewrite Erw. rewrite N.eqb_refl. reflexivity.
     - inversion Erw; subst st2. rewrite N.eqb_refl. reflexivity.
   Qed.
 
@@ -367,3 +368,101 @@ End Packer.
       eapply Nat.le_trans; [apply filter_length_le|]. unfold pks. rewrite map_length. auto. }
     lia.
   Qed.
+
+(* ---------------------------------------------------------------- the total score grows: premises on the INPUTS *)
+
+Lemma sum_notme_le me l : sumN (weights (filter (notme me) l)) <= sumN (weights l).
+Proof. induction l as [|x t IH]; cbn; [lia|]. destruct (notme me x); cbn; unfold weights in *; lia. Qed.
+
+Lemma sum_notme_plus_me me mep l : In mep l -> p_addr mep = me ->
+  sumN (weights (filter (notme me) l)) + p_weight mep <= sumN (weights l).
+Proof.
+  induction l as [|x t IH]; intros Hin Ha; [contradiction|]. cbn [filter]. destruct Hin as [->|Hin].
+  - unfold notme at 1. rewrite Ha, N.eqb_refl. cbn. pose proof (sum_notme_le me t). unfold weights in *. lia.
+  - specialize (IH Hin Ha). destruct (notme me x); cbn; unfold weights in *; lia.
+Qed.
+
+Lemma sum_filter_firstn_filter f m (l : list proposer) :
+  sumN (weights (filter f (firstn m l))) <= sumN (weights (filter f l)).
+Proof.
+  revert l. induction m as [|m IH]; intros l; cbn; [lia|]. destruct l as [|x t]; cbn; [lia|].
+  specialize (IH t). destruct (f x); cbn; unfold weights in *; lia.
+Qed.
+
+(* PoS: the proposer's own weight, scaled, reaches the total weight => score >= 1 (and <= 10000) *)
+Lemma pos_score_positive pt T cs me mep total t : 0 < T ->
+  find_me me (props cs) = Some mep -> is_scheduled pt T (addrs (seq_of me (pks cs))) t me = true ->
+  sumN (weights (seq_of me (pks cs))) * max_pos_score < 18446744073709551616 ->
+  sumN (weights (seq_of me (pks cs))) <= total -> 0 < total -> total <= p_weight mep * max_pos_score ->
+  1 <= snd (updates_pos pt T (seq_of me (pks cs)) mep total t) <= max_pos_score.
+Proof.
+  intros HT Hf Hit Hnw Hle Hpos Hw.
+  pose proof (sched_time_facts KPOS (fun _ => 0) pt T cs me t Hit) as [Hgt Hal].
+  destruct (aligned_form pt T t HT Hgt Hal) as (k & Hk & ->).
+  apply find_me_in in Hf. destruct Hf as [Hin Ha].
+  destruct (score_pos_bounds pt T k (seq_of me (pks cs)) mep total HT Hk Hnw Hle Hpos) as [E B]. cbv zeta in E.
+  split; [|exact B]. rewrite E. rewrite missed_spec by auto. rewrite Ha.
+  assert (Hmem : In mep (seq_of me (pks cs))).
+  { apply in_seq_of. split; [rewrite props_pks; exact Hin|]. unfold eligible. rewrite Ha, N.eqb_refl. apply orb_true_r. }
+  pose proof (sum_filter_firstn_filter (notme me) (N.to_nat (k - 1 - 0)) (seq_of me (pks cs))) as S1.
+  pose proof (sum_notme_plus_me me mep _ Hmem Ha) as S2.
+  apply N.div_le_lower_bound; [lia|]. rewrite N.mul_1_r.
+  set (S := sumN (weights (seq_of me (pks cs)))) in *.
+  set (M := sumN (weights (filter (notme me) (firstn (N.to_nat (k - 1 - 0)) (seq_of me (pks cs)))))) in *.
+  assert (Hd : p_weight mep <= S - M) by lia.
+  apply N.le_trans with (p_weight mep * max_pos_score); [exact Hw|]. apply N.mul_le_mono_r. exact Hd.
+Qed.
+
+(* PoA v1: between 1 and the number of candidates (unique master addresses) *)
+Lemma v1_score_positive hsh pt T cs me mep t :
+  NoDup (map cand_addr cs) -> find_me me (props cs) = Some mep ->
+  1 <= snd (updates_v1 hsh pt T (actives_v1 me (props cs)) mep t) <= N.of_nat (length cs).
+Proof.
+  intros Hnd Hf. apply find_me_in in Hf. destruct Hf as [Hin Ha].
+  assert (N1 : NoDup (addrs (actives_v1 me (props cs)))).
+  { unfold addrs, actives_v1. apply NoDup_map_filter. unfold props. rewrite map_map. exact Hnd. }
+  assert (I1 : In (p_addr mep) (addrs (actives_v1 me (props cs)))).
+  { unfold addrs, actives_v1. apply in_map. apply filter_In. split; [exact Hin|]. unfold eligible. rewrite Ha, N.eqb_refl. apply orb_true_r. }
+  destruct (score_v1_bounds hsh pt T (actives_v1 me (props cs)) mep t N1 I1) as [B1 B]. split; [exact B1|].
+  eapply N.le_trans; [exact B|]. unfold actives_v1.
+  pose proof (filter_length_le (eligible me) (props cs)). unfold props in *. rewrite map_length in *. lia.
+Qed.
+
+Definition pos_weight_premise (pv : pview) (po : packer_opts) : Prop :=
+  pv_pos pv = true -> forall mep, find_me (po_me po) (props (pv_cands pv)) = Some mep ->
+    let seq := seq_of (po_me po) (pks (pv_cands pv)) in
+    sumN (weights seq) * max_pos_score < 18446744073709551616 /\ sumN (weights seq) <= pv_total pv /\ 0 < pv_total pv /\
+    pv_total pv <= p_weight mep * max_pos_score.
+
+(* the score the packer adds is at least 1, for the three schedulers, from premises on the inputs only *)
+Theorem packer_score_grows cfg pv parent po now ctx ups :
+  0 < c_interval cfg -> NoDup (map cand_addr (pv_cands pv)) -> pos_weight_premise pv po ->
+  h_total_score parent + max_pos_score + N.of_nat (length (pv_cands pv)) < 18446744073709551616 ->
+  schedule_ctx cfg pv parent po now = Some (ctx, ups) ->
+  h_total_score parent < x_total_score ctx.
+Proof.
+  intros HT Hnd Hw Hnowrap Hs. apply schedule_ctx_some in Hs. destruct Hs as (mep & t & Ef & Et & _ & _ & -> & _).
+  cbn [x_total_score].
+  pose proof (sched_schedule_accepted _ _ _ _ _ _ _ _ _ _ HT Ef Et) as Hit.
+  match goal with |- _ < wrap64 (_ + snd ?u) => assert (B : 1 <= snd u <= max_pos_score + N.of_nat (length (pv_cands pv))) end.
+  { unfold kind_of in *. destruct (pv_pos pv) eqn:Epos.
+    - cbn [sched_updates sched_is_the_time] in *. destruct (Hw Epos mep Ef) as (W1 & W2 & W3 & W4).
+      pose proof (pos_score_positive _ _ _ _ _ _ _ HT Ef Hit W1 W2 W3 W4). rewrite (proj2 (find_me_in _ _ _ Ef)). lia.
+    - destruct (h_number parent + 1 <? c_vip214 cfg); cbn [sched_updates sched_is_the_time] in *.
+      + pose proof (v1_score_positive (pv_hash pv) (h_time parent) (c_interval cfg) _ _ _ t Hnd Ef).
+        rewrite (proj2 (find_me_in _ _ _ Ef)). unfold max_pos_score. lia.
+      + pose proof (v2_score_positive _ _ _ _ _ _ HT Ef Hit). rewrite (proj2 (find_me_in _ _ _ Ef)). unfold max_pos_score. lia. }
+  unfold wrap64, max_pos_score in *. rewrite N.mod_small by lia. lia.
+Qed.
+
+Lemma pack_block_score State exec apply_updates rewards root_of_state root_of_receipts root_of_txs has_tx find_meta
+      cfg pv parent po now st0 txs vote sr b stp rcs :
+  pack_block State exec apply_updates rewards root_of_state root_of_receipts root_of_txs has_tx find_meta
+             cfg pv parent po now st0 txs vote sr = Some (b, stp, rcs) ->
+  exists ctx ups, schedule_ctx cfg pv parent po now = Some (ctx, ups) /\ h_total_score (b_header b) = x_total_score ctx.
+Proof.
+  unfold pack_block. destruct (schedule_ctx cfg pv parent po now) as [[ctx ups]|]; [|discriminate].
+  destruct (adopt_all _ _ _ _ _ _ _ _ _ _ _) as [[[ts rs] stf] used]. unfold pack.
+  destruct (if pv_pos pv then _ else _); [|discriminate]. destruct (if _ <? _ then _ else _); [|discriminate].
+  intros E. inversion E; subst. exists ctx, ups. split; reflexivity.
+Qed.
